@@ -133,7 +133,7 @@ def expect_pos(files):
     return out
 
 
-def run_cases(binary, work, cases, paths=("run", "exec"), tlc_workers=12, tlc_timeout=3000, chunk=40000, trace=False):
+def run_cases(binary, work, cases, paths=("run", "exec"), tlc_workers=12, tlc_timeout=3000, chunk=10000, trace=False):
     """cases: list of dict(id, prog, ...). Adds 'src', 'obs', 'rejected'. Returns (disagreements, skips)."""
     work = Path(work)
     root = C.fresh_dir(work / "slots")
